@@ -29,7 +29,7 @@ def policy(rng, kind=None):
     return p
 
 
-def gen(ctx, plans, hists):
+def gen(ctx, plans, hists, fhists=()):
     quick = ctx.quick()
     rng = random.Random(ctx.seed * 69069 + 15)
     scen = []
@@ -85,6 +85,11 @@ def gen(ctx, plans, hists):
         hs = rng.sample(hists, 150)
     for i, h in enumerate(hs):
         scen.append({"id": "tick%d" % i, "kind": "tickets", "steps": h})
+    # 4b. histories with write faults (the ticket file cannot be rewritten for a while): TicketStore_faults.cfg
+    fh = list(fhists)
+    rng.shuffle(fh)
+    for i, h in enumerate(fh[:(120 if quick else 2500)]):
+        scen.append({"id": "tickfault%d" % i, "kind": "tickets", "steps": h})
     # 5. wrong secret / tampered reply
     for b in range(0, 160, 16 if quick else 1):
         scen.append({"id": "wsecret%d" % b, "kind": "wrong", "what": "secret", "bit": b})
@@ -119,11 +124,16 @@ def run(ctx):
         ctx.tlc_expect_ok("SSParse", "SSParse_real.cfg", label="response parser at the REAL constants (192/16/1308): every pad x every receive sequence", timeout=2400)
     hists, r = ctx.tlc_emit("TicketStore", "TicketStore_MC.cfg", tag="HIST", label="ticket store histories", count=True)
     hists = [h for _n, h in hists]
+    fhists, _ = ctx.tlc_emit("TicketStore", "TicketStore_faults.cfg", tag="HIST", label="ticket store histories with write faults", count=True)
+    fhists = [h for _n, h in fhists]
+    ctx.tlc_expect_violation("TicketStore", "TicketStore_faults_dev.cfg", "TicketAtMostOnce")
+    if len(fhists) < 5000:
+        raise Inconclusive("only %d fault histories" % len(fhists))
     plans, r2 = ctx.tlc_emit("Obfs4Tamper", "Obfs4Tamper_MC.cfg", tag="PLAN", label="attacker plans (packets)", count=True, timeout=900)
     plans = [p for _n, p in plans]
     if len(hists) < 1000 or len(plans) < 600:
         raise Inconclusive("generation too small: %d histories %d plans" % (len(hists), len(plans)))
-    scen = gen(ctx, plans, hists)
+    scen = gen(ctx, plans, hists, fhists)
     binary = ctx.go_build("./cmd/c15")
     traces = ctx.exec_scenarios(binary, scen, "c15", shards=15, timeout=3000)
     if len(traces) != len(scen) and not any(t.get("crashed") for t in traces):
